@@ -6,6 +6,7 @@ import (
 	"encoding/json"
 	"fmt"
 	"net/http"
+	"path"
 	"strings"
 	"sync"
 	"time"
@@ -19,6 +20,7 @@ import (
 	basicnode "github.com/ipld/go-ipld-prime/node/basic"
 	"github.com/ipni/go-libipni/dagsync"
 	"github.com/ipni/go-libipni/dagsync/ipnisync"
+	"github.com/ipni/go-libipni/dagsync/ipnisync/head"
 	"github.com/ipni/go-libipni/ingest/schema"
 	"github.com/libp2p/go-libp2p/core/host"
 	"github.com/libp2p/go-libp2p/core/peer"
@@ -77,6 +79,9 @@ type PubOpts struct {
 	// block is to have (0 = as it comes); the ad is padded with a filler
 	// address.
 	PadAd func(i int) int
+	// LongDigest: Proto asks for a digest longer than the registered
+	// fixed-size hasher of its function produces (see storeNode).
+	LongDigest bool
 }
 
 // PubNode is a publisher: real ipnisync.Publisher behind simulated servers.
@@ -175,6 +180,30 @@ func (p *PubNode) ServeHTTP(w http.ResponseWriter, r *http.Request) {
 		json.NewEncoder(w).Encode(map[string]any{string(ipnisync.ProtocolID): map[string]string{"path": pth}})
 		return
 	}
+	if p.Opts.LongDigest {
+		// The library's publisher loads what it serves through its link
+		// system, which cannot hash to such lengths: a publisher of another
+		// make serves the signed head and the stored bytes as they are.
+		base := path.Base(r.URL.Path)
+		if base == "head" {
+			sh := must(head.NewSignedHead(p.Head(), p.Opts.Topic, p.Ident.Priv))
+			w.Header().Set("Content-Type", "application/json")
+			w.Write(must(sh.Encode()))
+			return
+		}
+		c, err := cid.Decode(base)
+		if err != nil {
+			http.Error(w, "bad cid", http.StatusBadRequest)
+			return
+		}
+		b, ok := p.Store.Get(c)
+		if !ok {
+			http.Error(w, "not found", http.StatusNotFound)
+			return
+		}
+		w.Write(b)
+		return
+	}
 	p.Pub.ServeHTTP(w, r)
 }
 
@@ -194,7 +223,7 @@ func (p *PubNode) appendAd() cid.Cid {
 			ch.Entries = append(ch.Entries, mh)
 		}
 		n := must(ch.ToNode())
-		l := must(p.LS.Store(ipld.LinkContext{}, p.proto, n))
+		l := p.storeNode(n)
 		next = l
 		c := l.(cidlink.Link).Cid
 		ents = append([]cid.Cid{c}, ents...)
@@ -240,12 +269,31 @@ func (p *PubNode) appendAd() cid.Cid {
 		}
 	}
 	n := must(ad.ToNode())
-	l := must(p.LS.Store(ipld.LinkContext{}, p.proto, n))
+	l := p.storeNode(n)
 	c := l.(cidlink.Link).Cid
 	p.W.Names.Set(c.String(), fmt.Sprintf("%s.ad%d", p.Name, i))
 	p.Ads = append(p.Ads, c)
 	p.Entries = append(p.Entries, ents)
 	return c
+}
+
+// storeNode stores a node under the publisher's link prototype. A prototype
+// with a digest longer than the registered fixed-size hasher produces (an
+// extendable-output function asked for more) cannot go through the link
+// system, whose hasher is the fixed-size one: the block is encoded and hashed
+// here and put into the store directly.
+func (p *PubNode) storeNode(n ipld.Node) ipld.Link {
+	if p.Opts.LongDigest {
+		var b bytes.Buffer
+		if err := dagjson.Encode(n, &b); err != nil {
+			panic(err)
+		}
+		mh := must(multihash.Sum(b.Bytes(), p.proto.MhType, p.proto.MhLength))
+		c := cid.NewCidV1(p.proto.Codec, mh)
+		p.Store.Put(c, b.Bytes())
+		return cidlink.Link{Cid: c}
+	}
+	return must(p.LS.Store(ipld.LinkContext{}, p.proto, n))
 }
 
 // Extend adds n advertisements and moves the root to the new head.
